@@ -54,6 +54,11 @@ def units(tier, seed):
     for fr, ego in frames[:2]:
         for pol in S.POLICIES[:2]:
             u.append(dict(seam="frame", family="pf_reversed", frame=fr, ego=list(ego), policy=pol, kmax=2, chunk=[0, 1], tier=tier))
+    # the caller hands the object results over in another order than the matcher produced them (e.g. sorted by confidence: a
+    # GT-less result before a matched pair)
+    for fr, ego in frames[:2]:
+        for pol in S.POLICIES[:2]:
+            u.append(dict(seam="frame", family="res_reversed", frame=fr, ego=list(ego), policy=pol, kmax=2, chunk=[0, 1], tier=tier))
     # manager seam: both manager-level filters, both frames
     for fr, ego in frames[:2]:
         for pol in S.POLICIES:
@@ -83,7 +88,7 @@ def run_unit(unit, acc):
                                 ests=[est[i] for i in es], gts=[gt[j] for j in gs], crits=["box3"], thrs=["per_label3"]), acc)
         return
     est, gt = S.pools(_SEED[0])
-    if unit.get("family") in ("reversed", "pf_reversed"):
+    if unit.get("family") in ("reversed", "pf_reversed", "res_reversed"):
         est, gt = [est[i] for i in (0, 1, 2, 3, 4, 5, 7)], [gt[j] for j in (0, 1, 2, 3, 4, 7)]
     if unit["seam"] == "manager" and unit["tier"] == "quick":
         est, gt = [est[i] for i in (0, 1, 3, 4, 5, 7)], [gt[j] for j in (0, 1, 3, 4, 7)]
@@ -99,7 +104,7 @@ def run_unit(unit, acc):
             case = dict(seam=unit["seam"], frame=unit["frame"], ego=unit["ego"], policy=unit["policy"],
                         ests=[est[i] for i in es], gts=[gt[j] for j in gs], crits=list(S.CRIT)[:3],
                         thrs=list(S.THR) if unit["tier"] == "thorough" else ["tight", "per_label", "zero"])
-            if unit.get("family") in ("reversed", "pf_reversed"):
+            if unit.get("family") in ("reversed", "pf_reversed", "res_reversed"):
                 case["family"] = unit["family"]
                 case["crits"], case["thrs"] = ["box_per_label", "ring"], ["per_label"]
             if unit["seam"] == "manager":
@@ -300,6 +305,8 @@ def check_case(case, acc):
         names = ("car", "pedestrian", "unknown") if u3 else (("pedestrian", "car") if rv else ("car", "pedestrian"))
         tf = G.transforms(ego)
         res = get_object_results(EvaluationTask.DETECTION, ests, gts, ec.target_labels, MatchingLabelPolicy[case["policy"]], transforms=tf)
+        if case.get("family") == "res_reversed":
+            res = list(reversed(res))
         pre_e, pre_g = list(range(len(ests))), list(range(len(gts)))
         prev = None
         for crit in case["crits"]:
